@@ -1744,6 +1744,16 @@ int vnaproperty_vdelete(vnaproperty_t **rootptr, const char *format,
     int rv = -1;
 
     /*
+     * Deleting the whole tree is how every owner frees its properties:
+     * it must not depend on memory being available for the parser.
+     */
+    if (format[0] == '.' && format[1] == '\000') {
+	vnaproperty_free(*rootptr);
+	*rootptr = NULL;
+	return 0;
+    }
+
+    /*
      * Parse the expression and descend to the requested node.
      */
     if ((anchor = parse_and_descend(&parser, rootptr, /*set*/false,
